@@ -535,6 +535,11 @@ func addTree(
 			c.FileInfo.Mode = tree.FileInfo.Mode
 		}
 
+		// only an implicit directory may be replaced, and only by a directory
+		if present, ok := occupant(all, c.Destination); ok && (present.Type != TypeImplicitDir || !c.IsDir()) {
+			return contentCollisionError(c, present)
+		}
+
 		all[c.Destination] = c.WithFileInfoDefaults(umask, mtime)
 
 		return nil
